@@ -43,6 +43,11 @@ def _cfg(tier):
 
 @st.composite
 def _with_prelude(draw, tier):
+    if chance(draw, 1, 8):
+        # the flatten family (generator, builder and UNNEST reference of C16) over inner values that include falsy
+        # scalars and falsy elements: a flattened element is a value like any other
+        from . import c16
+        return {"family": "flatten", "flat": draw(c16.strategy(tier))}
     case = draw(query_case(_cfg(tier)))
     if chance(draw, 1, 3):
         # the value-position expressions of the query also occur in an EARLIER query over the same variables, as the SAME
@@ -152,7 +157,22 @@ def _index_rows(rows, objs, map_values):
     return out
 
 
+def _check_flatten(case) -> Outcome:
+    from . import c16
+    out = c16.check(case["flat"])
+    fc = case["flat"]
+    falsy_inner = any((not r.get(fc["inner"])) or (isinstance(r.get(fc["inner"]), list) and any(not x for x in r[fc["inner"]]))
+                      for i, r in enumerate(fc["ents"]) if i in fc["doms"][0]) if fc["inner"] != "kids" else False
+    classes = ["family_flatten", "inner_" + fc["inner"]] + (["falsy_inner_value"] if falsy_inner else [])
+    if out.ok or "parent_only_disjunction_with_empty_inner" in out.features:      # (KF-28 is C16's open finding)
+        return Outcome(True, nontrivial=falsy_inner, classes=classes, features=classes)
+    return fail("flatten_" + out.kind, "flattened elements as values: " + out.detail, nontrivial=falsy_inner, classes=classes,
+                features=classes)
+
+
 def check(case) -> Outcome:
+    if case.get("family") == "flatten":
+        return _check_flatten(case)
     objs = build_entities(case["ents"])
     feats = case_features(case)
     expected, n_sat, n_all = reference_rows(case, objs)
@@ -194,4 +214,8 @@ def check(case) -> Outcome:
     return Outcome(True, nontrivial=nontrivial, classes=classes, features=feats)
 
 
-render = render_query
+def render(case):
+    if case.get("family") == "flatten":
+        from . import c16
+        return {"family": "flatten", **c16.render(case["flat"])}
+    return render_query(case)
